@@ -54,6 +54,9 @@ type channel struct {
 	streamMut       sync.RWMutex
 	streamBroken    atomicFlag
 	connEstablished atomicFlag
+	// streamUp is signalled when the stream has been (re)established, to wake up
+	// a goroutine that sits out a back-off delay in reconnect.
+	streamUp        chan struct{}
 	parentCtx       context.Context
 	streamCtx       context.Context
 	cancelStream    context.CancelFunc
@@ -75,6 +78,7 @@ func newChannel(n *RawNode) *channel {
 		latency:         -1 * time.Second,
 		rand:            rand.New(rand.NewSource(time.Now().UnixNano())),
 		responseRouters: make(map[uint64]responseRouter),
+		streamUp:        make(chan struct{}, 1),
 	}
 	// parentCtx controls the channel and is used to shut it down
 	c.parentCtx = n.newContext()
@@ -351,6 +355,11 @@ func (c *channel) reconnect(maxRetries float64) {
 			c.gorumsStream = stream
 			c.streamBroken.clear()
 			c.streamMut.Unlock()
+			// wake up the other goroutine if it is backing off in reconnect
+			select {
+			case c.streamUp <- struct{}{}:
+			default:
+			}
 			return
 		}
 		c.cancelStream()
@@ -371,6 +380,9 @@ func (c *channel) reconnect(maxRetries float64) {
 		select {
 		case <-time.After(time.Duration(delay)):
 			retries++
+		case <-c.streamUp:
+			// the stream may have been re-established by another goroutine;
+			// don't wait out the delay before looking again
 		case <-c.parentCtx.Done():
 			return
 		}
